@@ -236,6 +236,9 @@ def gen_retrain_case(rng):
     pool = {'letters': ['password', 'dragon', 'Monkey', 'LOVE', 'sunshine'], 'digits': ['123456', '0000', '42', '2580'],
             'letters+digits': ['password1', 'dragon12', 'abc123', 'love2'], 'lower': ['password', 'love', 'dragon', 'test']}[kind]
     second['items'] = [[w, rng.choice([1, 2, 6])] for w in rng.sample(pool, rng.randint(2, len(pool)))]
+    # the second training may also use another encoding and another n-gram size than the first (the second list is ASCII): nothing of the first one survives
+    second['encoding'] = rng.choice(['utf-8', 'utf-8', 'latin-1', 'cp1251'])
+    second['ngram'] = rng.choice([first['ngram'], first['ngram'], 2, 3, 4])
     return {'first': first, 'second': second, 'retrain': True, 'coverage': second['coverage']}
 
 def check_case(run, case, det=False):
